@@ -255,7 +255,8 @@ def run(ctx):
     if not oko:
         asg = [n for n in walk_own(ro.node) if isinstance(n, ast.Assign) and isinstance(n.value, ast.Dict)]
         a = asg[0] if asg else None
-        res.add(Finding('C11', 'C11.e', 'R-DOM', ro.file, ro.qualname, a.lineno if a else ro.node.lineno, norm(a) if a else 'output entry value',
+        res.add(Finding('C11', 'C11.e', 'R-DOM', ro.file, ro.qualname, a.lineno if a else ro.node.lineno,
+                        'output entry value ' + norm(a.value) if a else 'output entry value',
                         'the arguments of an intercepted output are recorded uncopied although copy-on-interception is enabled: appending to a list '
                         'after it was sent to the output changes what is recorded'))
     return res
